@@ -1086,6 +1086,28 @@ func runRefTag(c *core.Ctx) {
 	}
 }
 
+// ptrFieldLoad: v is the load of a field through a pointer (rec.subject): the pointer and the field index.
+func ptrFieldLoad(v ssa.Value) (ssa.Value, int, bool) {
+	if v == nil {
+		return nil, 0, false
+	}
+	u, ok := an.Strip(v).(*ssa.UnOp)
+	if !ok || u.Op != token.MUL {
+		return nil, 0, false
+	}
+	fa, ok := u.X.(*ssa.FieldAddr)
+	if !ok {
+		return nil, 0, false
+	}
+	if _, isPtr := fa.X.Type().Underlying().(*types.Pointer); !isPtr {
+		return nil, 0, false
+	}
+	if _, isAlloc := fa.X.(*ssa.Alloc); isAlloc {
+		return nil, 0, false // a local struct variable, not a record reached through a pointer
+	}
+	return fa.X, fa.Field, true
+}
+
 // fieldWritten: a field of the local struct cell is assigned on its own (x.f = …) somewhere.
 func fieldWritten(cell ssa.Value, field int) bool {
 	if cell.Referrers() == nil {
@@ -1232,6 +1254,63 @@ func runReferrerCall(c *core.Ctx) {
 				}
 			}
 		}
+		// the subject may travel in a small record (&manifestReferrer{subject, desc}, possibly built by a helper that
+		// returns nil when there is nothing to record): the update is then called on the ‘record != nil’ edge, and every
+		// record that can arrive there was built on the ‘subject != ""’ edge of the subject it holds
+		recPtr, recField, viaRecord := ptrFieldLoad(subj)
+		var recTargets []an.PtrTarget
+		if !guardOK && viaRecord {
+			tg, complete := an.PtrTargets(recPtr, func(h *ssa.Function) bool { return core.FuncPkgPath(h) == c.P.Module })
+			recTargets = tg
+			samePtr := func(x ssa.Value) bool {
+				if x == recPtr || an.Origin(x) == an.Origin(recPtr) {
+					return true
+				}
+				a, ok1 := an.Strip(x).(*ssa.UnOp)
+				b, ok2 := an.Strip(recPtr).(*ssa.UnOp)
+				return ok1 && ok2 && a.X == b.X
+			}
+			for _, g := range an.GuardingEdges(hcall.Block()) {
+				x, nilSucc, ok := an.NilTest(g.If())
+				if !ok || g.Succ == nilSucc || !samePtr(x) {
+					continue
+				}
+				all := complete && len(tg) > 0
+				for _, t := range tg {
+					vals, _ := an.FieldStoresOf(t.Alloc, recField)
+					if len(vals) == 0 {
+						all = false
+					}
+					for _, v := range vals {
+						vr, vp := deepAccessPath(v)
+						okV := false
+						for _, tgd := range an.GuardingEdges(t.Block()) {
+							a, b, op, isCmp := an.CmpTest(tgd.If())
+							if !isCmp {
+								continue
+							}
+							if s0, isS := an.ConstString(b); !isS || s0 != "" {
+								continue
+							}
+							ar, ap := deepAccessPath(a)
+							if ar != vr || strings.Join(ap, ".") != strings.Join(vp, ".") || len(vp) == 0 {
+								continue
+							}
+							if (op == token.NEQ && tgd.Succ == 0) || (op == token.EQL && tgd.Succ == 1) {
+								okV = true
+							}
+						}
+						if !okV {
+							all = false
+						}
+					}
+				}
+				if all {
+					guardOK = true
+					guardBlock, guardSucc = g.From, g.Succ
+				}
+			}
+		}
 		c.Check(guardOK, "push-update-guard:"+name, hcall.Pos(), "the referrers update is called on the ‘subject != \"\"’ edge of the extracted subject: %v", guardOK)
 		if guardOK {
 			ok := mustPassBefore(guardBlock.Succs[guardSucc],
@@ -1275,6 +1354,33 @@ func runReferrerCall(c *core.Ctx) {
 		}
 		if subj != nil {
 			visit(subj, hcall.Block(), 0)
+		}
+		// …through the record: the subject stored in each record, seen from the handler's frame
+		for _, t := range recTargets {
+			vals, _ := an.FieldStoresOf(t.Alloc, recField)
+			for _, v := range vals {
+				root, pth := deepAccessPath(v)
+				if arg, ok := t.ArgOf(root); ok {
+					r2, p2 := deepAccessPath(arg)
+					root, pth = r2, append(append([]string{}, p2...), pth...)
+				}
+				al, ok := root.(*ssa.Alloc)
+				if !ok || ph.parsed[al] == "" || !pathEq(pth, "Subject", "Digest") {
+					continue
+				}
+				g := map[string]bool{}
+				blocks := []*ssa.BasicBlock{t.Block(), t.Alloc.Block()}
+				if t.Via != nil {
+					blocks = append(blocks, t.Via.Block())
+				}
+				for _, b := range blocks {
+					tr, _ := settingGuards(b)
+					for k := range tr {
+						g[k] = true
+					}
+				}
+				kinds[ph.parsed[al]] = g
+			}
 		}
 		parsedKinds := map[string]bool{}
 		for _, k := range ph.parsed {
@@ -1475,75 +1581,115 @@ func runSiblingRef(c *core.Ctx) {
 		c.Fail("builders:"+kn(c.P.FuncName(ph.hs.fn)), ph.insert.Pos(), "no referrers update call in the push handler")
 		return
 	}
-	var allocs []*ssa.Alloc
-	for _, a := range hcall.Call.Args {
-		if !isNamed(a.Type(), r.TypesPath, "Descriptor") {
-			continue
+	// the descriptors that can reach the update: literals of the handler (directly, through a pointer variable, or as
+	// the descriptor field of a small record — &manifestReferrer{subject, desc} — possibly built by a helper)
+	type descSrc struct {
+		pos    token.Pos
+		stores map[string][]ssa.Value
+		block  *ssa.BasicBlock // the block of the handler at which the literal is built (its guards tell the manifest kind)
+	}
+	var srcs []descSrc
+	seenAlloc := map[ssa.Value]bool{}
+	addLiteral := func(al *ssa.Alloc) {
+		if seenAlloc[al] {
+			return
 		}
-		var walk func(v ssa.Value, d int)
-		walk = func(v ssa.Value, d int) {
-			if d > 6 {
+		seenAlloc[al] = true
+		srcs = append(srcs, descSrc{al.Pos(), structStores(al), al.Block()})
+	}
+	var walk func(v ssa.Value, d int)
+	walk = func(v ssa.Value, d int) {
+		if d > 8 || v == nil {
+			return
+		}
+		switch x := v.(type) {
+		case *ssa.UnOp:
+			if x.Op == token.MUL {
+				walk(x.X, d+1)
+			}
+		case *ssa.Phi:
+			for _, e := range x.Edges {
+				walk(e, d+1)
+			}
+		case *ssa.Alloc:
+			if isNamed(an.Deref(x.Type()), r.TypesPath, "Descriptor") {
+				addLiteral(x)
+			}
+		case *ssa.FieldAddr:
+			// &rec.desc: every record that can arrive here
+			if !isNamed(an.Deref(x.Type()), r.TypesPath, "Descriptor") {
 				return
 			}
-			switch x := v.(type) {
-			case *ssa.UnOp:
-				if x.Op == token.MUL {
-					walk(x.X, d+1)
-				}
-			case *ssa.Phi:
-				for _, e := range x.Edges {
-					walk(e, d+1)
-				}
-			case *ssa.Alloc:
-				dup := false
-				for _, y := range allocs {
-					if y == x {
-						dup = true
+			tg, _ := an.PtrTargets(x.X, func(h *ssa.Function) bool { return core.FuncPkgPath(h) == c.P.Module })
+			for _, t := range tg {
+				vals, addrs := an.FieldStoresOf(t.Alloc, x.Field)
+				// filled field by field inside the record
+				nested := map[string][]ssa.Value{}
+				for _, fa := range addrs {
+					for k, vs := range structStores(fa) {
+						nested[k] = append(nested[k], vs...)
 					}
 				}
-				if !dup {
-					allocs = append(allocs, x)
+				if len(nested) > 0 && !seenAlloc[t.Alloc] {
+					seenAlloc[t.Alloc] = true
+					srcs = append(srcs, descSrc{t.Alloc.Pos(), nested, t.Alloc.Block()})
+				}
+				// stored as a whole: a value of the record's frame, or what the caller handed to the helper
+				for _, wv := range vals {
+					if arg, ok := t.ArgOf(wv); ok {
+						walk(arg, d+1)
+					} else {
+						walk(wv, d+1)
+					}
 				}
 			}
 		}
-		walk(a, 0)
 	}
-	if len(allocs) == 0 {
+	for _, a := range hcall.Call.Args {
+		if isNamed(a.Type(), r.TypesPath, "Descriptor") {
+			walk(a, 0)
+		}
+	}
+	if len(srcs) == 0 {
 		c.Undecided("builders:"+kn(c.P.FuncName(ph.hs.fn)), hcall.Pos(), "the referrers descriptor passed to the update could not be traced to literals")
 		return
 	}
-	for i, al := range allocs {
-		st := structStores(al)
+	for i, src := range srcs {
+		st := src.stores
 		got := fieldsOf(st)
 		kind := ""
-		for _, g := range an.GuardingEdges(al.Block()) {
-			if x, nilSucc, ok := an.NilTest(g.If()); ok && g.Succ == nilSucc {
-				if call, _ := an.CallOf(x); call != nil {
-					if pa, ok := ph.unmarshal[call]; ok {
-						kind = ph.parsed[pa]
+		if src.block != nil && src.block.Parent() == ph.hs.fn {
+			for _, g := range an.GuardingEdges(src.block) {
+				if x, nilSucc, ok := an.NilTest(g.If()); ok && g.Succ == nilSucc {
+					if call, _ := an.CallOf(x); call != nil {
+						if pa, ok := ph.unmarshal[call]; ok {
+							kind = ph.parsed[pa]
+						}
 					}
 				}
 			}
 		}
 		key := fmt.Sprintf("builder:%s#%s%d", kn(c.P.FuncName(ph.hs.fn)), kind, i+1)
 		if strings.Join(got, ",") != strings.Join(want, ",") {
-			c.Fail(key, al.Pos(), "the referrers entry built at %s fills %v; its siblings fill %v: the referrers list would lack the missing field for this manifest kind", c.P.Pos(al.Pos()), got, want)
+			c.Fail(key, src.pos, "the referrers entry built at %s fills %v; its siblings fill %v: the referrers list would lack the missing field for this manifest kind", c.P.Pos(src.pos), got, want)
 			continue
 		}
 		if kind == "img" {
-			// config fallback
+			// config fallback (assigned afterwards, or chosen beforehand into a local)
 			fallback := false
 			for _, v := range st["ArtifactType"] {
-				if _, p := accessPath(v); pathEq(p, "Config", "MediaType") {
-					fallback = true
+				for _, o := range append([]ssa.Value{v}, an.Origins(v)...) {
+					if _, p := accessPath(o); pathEq(p, "Config", "MediaType") {
+						fallback = true
+					}
 				}
 			}
 			if !fallback {
-				c.Fail(key, al.Pos(), "the referrers entry for image manifests does not fall back to the config media type when artifactType is empty")
+				c.Fail(key, src.pos, "the referrers entry for image manifests does not fall back to the config media type when artifactType is empty")
 				continue
 			}
 		}
-		c.Pass(key, al.Pos(), "fills %v%s", got, map[bool]string{true: " with config fallback", false: ""}[kind == "img"])
+		c.Pass(key, src.pos, "fills %v%s", got, map[bool]string{true: " with config fallback", false: ""}[kind == "img"])
 	}
 }
 
